@@ -4,4 +4,5 @@ CONSTANTS
   Widths = {4, 5, 6, 7, 8}
   Emit = TRUE
 INVARIANT Threshold
+INVARIANT BlocksCover
 INVARIANT EmitOK
